@@ -1,6 +1,7 @@
 open BinNums
 open BinPos
 open Datatypes
+open Decimal
 
 module N :
  sig
@@ -15,4 +16,8 @@ module N :
   val eqb : coq_N -> coq_N -> bool
 
   val leb : coq_N -> coq_N -> bool
+
+  val of_nat : nat -> coq_N
+
+  val to_uint : coq_N -> uint
  end
